@@ -29,6 +29,9 @@ def cases(tier):
                 add('rounds=%d' % rounds, rounds=rounds)
             add('rounds=20', rounds=20)
             add('rounds=40', rounds=40)
+            add('rounds=63', rounds=63)
+            add('rounds=64', rounds=64)
+            add('rounds=70', rounds=70)
             for tag in range(1, 7):
                 add('tag=%d' % tag, tag=tag)
             nel = x + 5 + 2 * good
@@ -46,7 +49,7 @@ def cases(tier):
         for ms in set(itertools.permutations((1, 2, 4))):
             members = [{'m': mm, 'cap': max(cc, mm), 'rounds': ilog2(4 * mm)} for mm, cc in zip(ms, caps)]
             out.append({'cfg': {'scenario': 'adversarial', 'n': 4, 'x': 1, 'members': members, 'actions': ACTIONS}, 'kind': 'verify', 'name': 'batch m=%s caps=%s' % (list(ms), list(caps))})
-    for bad in ({'n': 8}, {'x': 2}, {'x': 2, 'tag': 2}, {'rounds': 5}):
+    for bad in ({'n': 8}, {'x': 2}, {'x': 2, 'tag': 2}, {'rounds': 5}, {'rounds': 1}, {'tag': 2}, {'tag': 2, 'd1': 1}):
         for pos in range(3):
             members = [{'m': 1, 'cap': 1, 'rounds': 2} for _ in range(3)]
             members[pos] = dict(members[pos], **bad)
